@@ -1245,8 +1245,8 @@ run_task(_task_t t)
 static __attribute__((pure, const)) ev_tstamp
 instant_to_tstamp(echs_instant_t i)
 {
-/* this way around it's easier, date range supported is 2001 to 2099
- * (i.e. with no bullshit leap years) */
+/* this way around it's easier, dates before 2001 (a DTSTART of long ago)
+ * come out negative relative to our epoch */
 	static uint16_t __mon_yday[] = {
 		/* this is \sum ml,
 		 * first element is a bit set of leap days to add */
@@ -1254,22 +1254,27 @@ instant_to_tstamp(echs_instant_t i)
 		31, 59, 90, 120, 151, 181,
 		212, 243, 273, 304, 334, 365
 	};
-	unsigned int nd = 0U;
+#define FDIV(x, n)	((x) >= 0 ? (x) / (n) : -((n) - 1 - (x)) / (n))
+	const int y = (int)i.y - 2001;
+	long int nd = 0;
 	time_t t;
 
 	/* days from 2001-01-01 till day 0 of current year,
 	 * i.e. i.y-01-00 */
-	nd += 365U * (i.y - 2001U) + (i.y - 2001U) / 4U;
+	nd += 365L * y + FDIV(y, 4) - FDIV(y, 100) + FDIV(y, 400);
 	/* day-of-year */
-	nd += __mon_yday[i.m] + i.d + UNLIKELY(!(i.y % 4U) && i.m >= 3);
+	nd += __mon_yday[i.m] + i.d +
+		UNLIKELY(!(i.y % 4U) && (i.y % 100U || !(i.y % 400U)) &&
+			 i.m >= 3);
+#undef FDIV
 
 	if (LIKELY(!echs_instant_all_day_p(i))) {
 		t = (((time_t)nd * 24U + i.H) * 60U + i.M) * 60U + i.S;
 	} else {
-		t = (time_t)nd * 86400UL;
+		t = (time_t)nd * 86400L;
 	}
 	/* calc number of seconds since unix epoch */
-	t += 11322/*days from unix epoch to our epoch*/ * 86400UL;
+	t += 11322L/*days from unix epoch to our epoch*/ * 86400L;
 	return (double)t;
 }
 
